@@ -296,3 +296,14 @@ Proof.
   clear Hx Hl. induction Hb as [|b l Hb Hl IH]; [cbn; lia|].
   cbn [of_le length]. rewrite Nat2N.inj_succ, N.pow_succ_r'. lia.
 Qed.
+
+(* ext_put / extbe_put are the fixed-width writers at the minimal width (the
+   `None => []` arm of their definitions is never taken) *)
+Lemma ext_put_as_fixed x : x < two64 ->
+  ext_put_fixed x (ext_width x) = Some (ext_put x) /\
+  extbe_put_fixed x (ext_width x) = Some (extbe_put x).
+Proof. intro H. split; [apply ext_put_defined; exact H|apply extbe_put_defined; exact H]. Qed.
+
+Lemma ext_fixed_domain x w : ~ (1 <= w <= 8)%nat ->
+  ext_put_fixed x w = None /\ extbe_put_fixed x w = None.
+Proof. intro H. split; [apply ext_put_fixed_none; exact H|apply extbe_put_fixed_none; exact H]. Qed.
